@@ -86,6 +86,10 @@ func cmdCheck(args []string) int {
 	}
 	var fvs []*FuncVer
 	var specErrors []string
+	for _, m := range eng.missing {
+		fmt.Fprintln(os.Stderr, "gocv:", m)
+		specErrors = append(specErrors, m)
+	}
 	for _, b := range blocks {
 		if *only != "" && !strings.Contains(b.Flags["resolved"], *only) {
 			continue
